@@ -1,6 +1,6 @@
 """C08 - no interleaving of concurrent API calls can deadlock.
 
-R1: schedlab record runs every catalogue operation (40 API calls of TieredEngine / HnswBackend) single-threaded on a
+R1: schedlab record runs every catalogue operation (49 API calls of TieredEngine / HnswBackend) single-threaded on a
     real engine in several start states, through a vendored parking_lot whose raw lock methods report every
     acquire / try / release -> one LOCK PROGRAM per operation (lock instances numbered consistently).
 MC: LockSched.tla (S3: parking_lot RwLock / Mutex semantics with writer preference, upgradable reads, try-locks)
